@@ -306,7 +306,7 @@ func (r *runningRoutine) execute(
 	exitedCh chan struct{},
 	waitCh <-chan struct{},
 ) {
-	verifhook.Point("routine.exec", r.r)
+	verifhook.Point("routine.exec", r)
 	var err error
 	if waitCh != nil {
 		select {
@@ -343,7 +343,7 @@ func (r *runningRoutine) execute(
 					dur := r.r.retryBo.NextBackOff()
 					if dur != backoff.Stop {
 						r.deferRetry = time.AfterFunc(dur, func() {
-							verifhook.Point("routine.timer.retry", r.r)
+							verifhook.Point("routine.timer.retry", r)
 							r.r.bcast.HoldLock(func(broadcast func(), getWaitCh func() <-chan struct{}) {
 								if r.r.ctx != nil && r.r.routine == r && r.exited {
 									r.start(r.r.ctx, r.exitedCh, true)
